@@ -993,6 +993,21 @@ def installed(promax=True):
         except Exception:
             pass
     patch(np, "vectorize", SymVectorize)
+    # numpy converts xarray objects with np.asarray before it dispatches: unwrap them here so that a tolerance comparison on a
+    # labelled symbolic array reaches the exact handler (the result is a plain array, as with real numpy)
+    import xarray as _xr
+
+    def _unwrapping(real):
+        def f(a, b, *args, **kw):
+            a2 = a.data if isinstance(a, (_xr.DataArray, _xr.Variable)) else a
+            b2 = b.data if isinstance(b, (_xr.DataArray, _xr.Variable)) else b
+            return real(a2, b2, *args, **kw)
+
+        f.__name__ = real.__name__
+        return f
+
+    patch(np, "isclose", _unwrapping(np.isclose))
+    patch(np, "allclose", _unwrapping(np.allclose))
     try:
         import xeofs.multi.cca as mcca
 
